@@ -27,6 +27,8 @@ func expectBody(c *nd.Ctx) nd.Result {
 	var conns [2]net.Conn
 	var errs [2]error
 	var returned [2]bool
+	var readBack string
+	var readErr error
 	out := vs.Run(c, vs.Options{Horizon: 40000}, func() {
 		env, setupErr = vsess.New(ns, 0)
 		if setupErr != nil {
@@ -48,6 +50,15 @@ func expectBody(c *nd.Ctx) nd.Result {
 		})
 		expect(1)
 		vsess.Wait("both-returned", func() bool { return returned[0] && returned[1] })
+		// the stream the surviving call got carries data like any other
+		for i := range conns {
+			if errs[i] == nil && conns[i] != nil {
+				env.PeerWrite(dataPacket(carrier, "d0", "s1", 0, []byte("xyz")))
+				buf := make([]byte, 8)
+				n, rerr := conns[i].Read(buf)
+				readBack, readErr = string(buf[:n]), rerr
+			}
+		}
 		env.PeerWrite(`</stream:stream>`)
 		vsess.Wait("serve-done", func() bool { return env.ServeDone })
 	})
@@ -68,6 +79,9 @@ func expectBody(c *nd.Ctx) nd.Result {
 	case "panic":
 		return fail(out.Panic.Sig(), "panic in thread %s: %s\n%s", out.PanicIn, out.Panic.Value, out.Panic.Stack)
 	case "deadlock":
+		if returned[0] && returned[1] {
+			return fail("expected-stream-carries-no-data", "the data sent on the stream never reaches its reader; blocked threads: %v", out.Blocked)
+		}
 		return fail("surviving-call-never-gets-the-stream", "blocked threads: %v", out.Blocked)
 	case "horizon":
 		return fail("does-not-terminate", "blocked: %v", out.Blocked)
@@ -85,6 +99,9 @@ func expectBody(c *nd.Ctx) nd.Result {
 	}
 	if got != 1 || cancelled != 1 {
 		return fail("take-over", "%d calls got the stream, %d were cancelled", got, cancelled)
+	}
+	if readBack != "xyz" || readErr != nil {
+		return fail("expected-stream-carries-no-data", "the peer sent \"xyz\" on the stream, the application read %q (%v)", readBack, readErr)
 	}
 	return res
 }
